@@ -157,7 +157,24 @@ SigKept(a, b) ==
 \* "... but still collapse multiple whitespace characters into one"
 Collapsed(toks, ws) ==
   \A t \in ToSet(Kind(toks, "T")) : \A i \in 1..(Len(t.b) - 1) : ~(t.b[i] \in ws /\ t.b[i+1] \in ws)
-HtmlKeepWhitespaceOK(in, out, d) == SigKept(HtmlSig(in), HtmlSig(out)) /\ (d = <<>> => Collapsed(out, HtmlWs))
+(* cmd/minify/README.md, --html-keep-whitespace: "Preserve whitespace characters but still collapse multiple
+   into one" - wider than "between inline tags".  Second signature: EVERY tag is an item.  When no tag was
+   dropped (same items, same tag names - otherwise the optional-tag minifications are at work and nothing is
+   claimed here), a blank between text and a tag - block tags included - is still there.  Blanks between two
+   tags are claimed for inline tags only (above): between e.g. <select> and <option>, <ul> and <li> they are
+   inter-element white space of content models without text. *)
+HtmlSigAll(toks) ==
+  FoldLeft(LAMBDA acc, t :
+     IF t.k = "T" THEN SigText(acc, t.b, HtmlWs)
+     ELSE IF IsTag(t) THEN [Push(acc, 0) EXCEPT !.names = Append(@, <<t.k, t.n>>)]
+     ELSE acc, SigInit, toks)
+TextGapsKept(a, b) ==
+  (a.items = b.items /\ a.names = b.names) =>
+     \A i \in 1..Len(a.gaps) : (a.gaps[i] = 1 /\ (a.items[i] # 0 \/ a.items[i+1] # 0)) => b.gaps[i] = 1
+HtmlKeepWhitespaceOK(in, out, d) ==
+  /\ SigKept(HtmlSig(in), HtmlSig(out))
+  /\ TextGapsKept(HtmlSigAll(in), HtmlSigAll(out))
+  /\ (d = <<>> => Collapsed(out, HtmlWs))
 XmlKeepWhitespaceOK(in, out) == SigKept(XmlSig(in), XmlSig(out)) /\ Collapsed(out, XmlWs)
 
 (* TemplateDelims: "preserve context within and surrounding the given opening and closing
